@@ -398,11 +398,20 @@ def run_sharded(mod_name, shards, bins, workdir, tier):
     return out
 
 
+def effective_cfg(cid, cfg):
+    """errno holds whatever earlier, unrelated calls left there; a fixed share of all cases runs
+    with a stale ERANGE / EINVAL / ENOMEM in place at the start of every library call"""
+    if '+' in cfg:
+        return cfg
+    r = cid % 7
+    return cfg + {3: '+e34', 5: '+e22', 6: '+e12'}.get(r, '')
+
+
 def write_cases(path, cases):
     """cases: list of (id, cfg, [op lines])"""
     with open(path, 'w') as f:
         for cid, cfg, ops in cases:
-            f.write('case %d %s\n' % (cid, cfg))
+            f.write('case %d %s\n' % (cid, effective_cfg(cid, cfg)))
             f.write('\n'.join(ops))
             f.write('\nend\n')
 
@@ -453,7 +462,7 @@ def case_witness(cases_by_id, flavour, thorough=False):
     def w(clog, idx):
         cid = clog.id
         cfg, ops = cases_by_id[cid]
-        txt = 'case %d %s\n%s\nend\n' % (cid, cfg, '\n'.join(ops))
+        txt = 'case %d %s\n%s\nend\n' % (cid, effective_cfg(cid, cfg), '\n'.join(ops))
         if len(txt) > 200000:
             txt = txt[:200000] + '\n#...truncated\n'
         return {'flavour': flavour, 'case': txt, 'op_index': idx, 'thorough': thorough}
